@@ -593,4 +593,6 @@ def _unpack_ex_arg(src):
 
 out["unpack_ex"] = {"before1_after2": _unpack_ex_arg("a, *b, c, d = x"), "before2_after0": _unpack_ex_arg("a, b, *c = x"), "before0_after1": _unpack_ex_arg("*a, b = x")}
 
+out["stdlib_module_names"] = sorted(getattr(sys, "stdlib_module_names", []))
+
 json.dump(out, sys.stdout)
